@@ -133,7 +133,7 @@ theorem C14_accepts (h : Dom14 b d u a b0 d0 u0 b1 d1 u1 ay) :
 /-- Case I (`b0 > b1` and `d0 > d1` agree): `k = 0`, the result `(bI, dI, uI; ay)` is accepted and
     well-formed.  No division is evaluated, so this holds on the closed domain: any well-formed
     antecedent (absolute ones included), any `0 ≤ ay ≤ 1`. -/
-theorem C14_case1 (hx : BWF b d u a) (h0 : SWF b0 d0 u0) (h1 : SWF b1 d1 u1)
+theorem C14_case1 (hx : BWF b d u a) (h0 : SWF3 b0 d0 u0) (h1 : SWF3 b1 d1 u1)
     (hy0 : 0 ≤ ay) (hy1 : ay ≤ 1) (hI : b1 < b0 ↔ d1 < d0) :
     BOp.deduce (liftB (f := f) b d u a) (liftS b0 d0 u0) (liftS b1 d1 u1) (XQ.fin ay)
       = (.ok (liftB (mixq b d u a b0 b1) (mixq b d u a d0 d1) (mixq b d u a u0 u1) ay), .I) ∧
